@@ -45,3 +45,62 @@ def build(inp, template):
 
 def render(template):
     return "".join(p if isinstance(p, str) else p[0][0].upper() * p[1] for p in template)
+
+
+# ---------------------------------------------------------------------------------------------------
+# zone environment for the timezone contracts (C11/C12/C01-epoch): abstract zones behind the names
+
+
+class ZoneEnv:
+    """Names 'ZoneA'/'ZoneB' resolve to abstract zones of the requested kind:
+      'pytz'   -> pytz.timezone(name) returns an abstract pytz zone (has .localize)
+      'static' -> pytz does not know the name (UnknownTimeZoneError); the library's own table has
+                  one entry for it, with an arbitrary (symbolic) offset strictly inside +-24h
+    and tzlocal.get_localzone() returns an abstract zoneinfo-style zone.  Proving mode only."""
+
+    def __init__(self, inp, kinds):
+        import datetime
+
+        import pytz
+        import regex
+        import tzlocal
+
+        import dateparser.utils as U
+        from dateparser.timezone_parser import StaticTzInfo
+        from pyvc import cal, instrument, zone
+
+        self.zones = {}
+        table = []
+        for name, kind in kinds.items():
+            if kind == "pytz":
+                self.zones[name] = zone.SZone(name, "pytz")
+            elif kind == "static":
+                off = inp.int("off_" + name, -86399, 86399)
+                td = cal.mk_timedelta(off * 1000000)
+                self.zones[name] = StaticTzInfo(name, td)
+                table.append((name, {"regex": regex.compile(r"(\W|\d|_)%s($|\W)" % name, regex.I),
+                                     "offset": td}))
+        self.local = zone.SZone("LocalZone", "plain")
+        U._tz_offsets = table
+
+        def tz_lookup(name):
+            z = self.zones.get(name)
+            if isinstance(z, zone.SZone):
+                return z
+            if name == "UTC":
+                return pytz.utc
+            raise pytz.UnknownTimeZoneError(name)
+
+        instrument.ALWAYS[id(pytz.timezone)] = tz_lookup
+        instrument.ALWAYS[id(tzlocal.get_localzone)] = lambda: self.local
+
+    def zone(self, name):
+        if name == "local":
+            return self.local
+        return self.zones[name]
+
+
+def real_zone_env(values, kinds):
+    """replay mode: pick real zones for the abstract ones (a counter-model of an abstract-zone
+    obligation replays only if some real zone behaves like the model; the catalogue is fixed)"""
+    raise NotImplementedError
